@@ -201,6 +201,14 @@ fn scn_configs(o: &Opts, tr: &mut Tr, prop: &str) {
                     };
                     let id = format!("cfg-{}-l{}-{}-w{}", if zl { "z" } else { "r" }, lvl, STRATS[st].0, wb);
                     stream_comp_case(tr, &id, prop, &data, &cfg, &big_out_sched(), &mut r, "planted");
+                    if zl && lvl >= 1 && n % 4 == 1 && prop != "C10" {
+                        // the level is changed while the stream is being written (header already out)
+                        let sch = Sched { chunk_pat: "fixed700".into(), outs: vec![1 << 20], flush_pct: 50, flush_set: vec![2, 7, 1],
+                                          callback: false, max_points: 0 };
+                        comp::RELEVEL_PCT.with(|c| c.set(30));
+                        stream_comp_case(tr, &format!("{}-relevel", id), prop, &data, &cfg, &sch, &mut r, "planted");
+                        comp::RELEVEL_PCT.with(|c| c.set(0));
+                    }
                     if zl && n % 3 == 0 {
                         // the same configuration on an object that already compressed a stream and was reset
                         let cfg2 = Cfg { zlib: zl, level: lvl, strat: st, wbits: wb, api: "params_reused" };
